@@ -278,6 +278,15 @@ func (s *aggSession) buildElements(r aggRec, v6 bool) []entities.InfoElementWith
 		entities.NewUnsigned64InfoElement(ie("reversePacketDeltaCount", R), r.Delta[1]),
 		entities.NewUnsigned64InfoElement(ie("reverseOctetTotalCount", R), r.Tot[3]),
 	)
+	switch r.Layout {
+	case 1: // the counters come first
+		n := len(els)
+		els = append(append([]entities.InfoElementWithValue(nil), els[n-6:]...), els[:n-6]...)
+	case 2: // everything the other way round
+		for a, b := 0, len(els)-1; a < b; a, b = a+1, b-1 {
+			els[a], els[b] = els[b], els[a]
+		}
+	}
 	return els
 }
 
@@ -296,7 +305,7 @@ func (s *aggSession) recOf(op plan.Op) aggRec {
 	}
 	return aggRec{Key: key, Node: node, Cat: cat, Start: uint32(n[0]), End: uint32(n[1]),
 		Tot: [4]uint64{uint64(n[2]), uint64(n[3]), uint64(n[4]), uint64(n[5])}, Delta: [2]uint64{uint64(n[6]), uint64(n[7])},
-		TCPState: op.S, Corr: corrValues(key, node, cat, v6, op.D)}
+		TCPState: op.S, Corr: corrValues(key, node, cat, v6, op.D), Layout: int(op.D % 3)}
 }
 
 // ---- reading the real process -------------------------------------------------
